@@ -236,6 +236,51 @@ impl World {
                 self.bump("small_window_nonempty");
             }
         }
+        // ---- ghost: snapshots outstanding per peer (sent, neither reported nor acknowledged)
+        {
+            let node = self.nodes.get_mut(&n).unwrap();
+            if !same_leader {
+                node.snap_outstanding.clear();
+            }
+            match c.kind {
+                CallKind::ReportSnapshot { peer, .. } => {
+                    node.snap_outstanding.remove(peer);
+                }
+                CallKind::Step(r) if r.get_msg_type() == MessageType::MsgAppendResponse && !r.reject => {
+                    if node.snap_outstanding.get(&r.from).map(|idx| r.index >= *idx).unwrap_or(false) {
+                        node.snap_outstanding.remove(&r.from);
+                    }
+                }
+                _ => {}
+            }
+            let keys: Vec<u64> = node.snap_outstanding.keys().cloned().collect();
+            for k in keys {
+                if !c.post.prs_keys.contains(&k) || c.pre.conf != c.post.conf {
+                    node.snap_outstanding.remove(&k);
+                }
+            }
+        }
+        if same_leader {
+            let outstanding = self.nodes[&n].snap_outstanding.clone();
+            for m in c.emitted {
+                if m.get_msg_type() == MessageType::MsgAppend {
+                    if let Some(idx) = outstanding.get(&m.to) {
+                        *self.stats.entry("chk.C13.snapshot_silence").or_insert(0) += 1;
+                        let d = format!("leader {n} sent MsgAppend (anchor {}, {} entries) to {} while its snapshot at {idx} is outstanding: neither reported nor acknowledged (call {})", m.index, m.entries.len(), m.to, kind_name(c.kind));
+                        let v = self.violation("C13", "C13.snapshot_silence", n, d, "append_while_snapshot_outstanding".into());
+                        self.gate(Err(v))?;
+                    }
+                }
+            }
+        }
+        {
+            let node = self.nodes.get_mut(&n).unwrap();
+            for m in c.emitted {
+                if m.get_msg_type() == MessageType::MsgSnapshot {
+                    node.snap_outstanding.insert(m.to, m.get_snapshot().get_metadata().index);
+                }
+            }
+        }
         if !same_leader {
             return Ok(());
         }
